@@ -117,7 +117,13 @@ def refStep (r : IRef) (t0 : List String) (obs : String) : IRef × String :=
     -- after a reliable lock-step phase both attempts have completed, with each other
     match lookupS r.atts a, lookupS r.atts b with
     | some ra, some rb =>
-      if ra.successes ≥ 1 && rb.successes ≥ 1 && ra.partner = some b && rb.partner = some a then (r, "ok")
+      -- roles: exactly one end starts the key rotation (its message ids are odd, the other's even; plain sessions do not rotate)
+      let rotId (st : String) : Option Nat := ((field st "rot").bind (fun x => (x.splitOn "/").head?)).bind String.toNat?
+      if ra.successes ≥ 1 && rb.successes ≥ 1 && ra.partner = some b && rb.partner = some a then
+        (match ra.algo ≠ "PLAIN" && rb.algo ≠ "PLAIN", rotId ra.state, rotId rb.state with
+         | true, some ia, some ib => (r, if ia % 2 ≠ ib % 2 then "ok" else s!"FAIL C05 both ends completed in the same role: not exactly one of them starts key rotation (rotation ids {ia} and {ib})")
+         | true, _, _ => (r, "FAIL C05 an encrypted session without rotation state after completion")
+         | false, _, _ => (r, "ok"))
       else (r, s!"FAIL C05 delivery was reliable (lock-step retransmission rounds) but the handshake did not complete on both ends: successes {a}={ra.successes} {b}={rb.successes}")
     | _, _ => (r, "-")
   | op :: rest =>
